@@ -1,7 +1,7 @@
 (* The byte-key comparator of plain databases (no VNUM/REALNUM/COMPOUND flag) is a strict total order
    with Eq only on identical keys: _cmp_keys = lexicographic comparison of byte strings. *)
 Require Import ZArith List Bool Lia. Import ListNotations.
-Require Import IW.Lib.CInt IW.Lib.Vnum IW.KV.Keys IW.KV.Inst IW.Gen.Facts.
+Require Import IW.Lib.CInt IW.Lib.Vnum IW.Lib.Vnum_proofs IW.KV.Keys IW.KV.Inst IW.Gen.Facts.
 Local Open Scope Z_scope.
 
 Definition plain : kmode := {| km_vnum := false; km_real := false; km_compound := false |}.
@@ -104,4 +104,87 @@ Qed.
 Theorem plain_cmp_eq_iff : forall a b : key, cmp_of plain a b = Eq <-> fst a = fst b.
 Proof.
   intros. rewrite cmp_of_plain. split; [intros H; symmetry; apply bcmp_eq; exact H|intros ->; apply bcmp_refl].
+Qed.
+
+(* ---- integer-key databases (IWDB_VNUM64_KEYS): the comparator orders stored keys by (encoded length, decoded value);
+        that is a total preorder on arbitrary byte strings, and numeric order on valid encodings ---- *)
+Definition vnummode : kmode := {| km_vnum := true; km_real := false; km_compound := false |}.
+
+Definition vkey (k : key) : Z * Z :=
+  let l := Z.of_nat (length (fst k)) in (l, if l >? IW_VNUMBUFSZ then 0 else read_vnum2 (fst k)).
+
+(* scan order is DESCENDING: a comes before b iff a's (length, value) is greater *)
+Definition pcmp (x y : Z * Z) : comparison :=
+  if fst x >? fst y then Lt else if fst x <? fst y then Gt
+  else if snd x >? snd y then Lt else if snd x <? snd y then Gt else Eq.
+
+Lemma cmp_of_vnum (a b : key) : cmp_of vnummode a b = pcmp (vkey a) (vkey b).
+Proof.
+  unfold cmp_of, kcmp, cmp_keys, cmp_keys_prefix, stored, vnummode, vnum_cmp, vkey, pcmp, sgn3. cbn [km_vnum km_real km_compound fst snd andb negb orb].
+  set (la := Z.of_nat (length (fst a))). set (lb := Z.of_nat (length (fst b))).
+  rewrite Bool.andb_false_r. cbn [negb].
+  destruct (lb =? la) eqn:E; cbn [negb orb].
+  - assert (lb = la) by lia. 
+    destruct (lb >? IW_VNUMBUFSZ) eqn:E1; cbn [orb].
+    + assert (E2 : (la >? IW_VNUMBUFSZ) = true) by lia. rewrite E2.
+      replace (lb - la) with 0 by lia. cbn.
+      destruct (la >? lb) eqn:G1; [lia|]. destruct (la <? lb) eqn:G2; [lia|]. reflexivity.
+    + destruct (la >? IW_VNUMBUFSZ) eqn:E2; [lia|]. cbn [orb].
+      destruct (la >? lb) eqn:G1; [lia|]. destruct (la <? lb) eqn:G2; [lia|].
+      destruct (read_vnum2 (fst a) >? read_vnum2 (fst b)) eqn:V1; [reflexivity|].
+      destruct (read_vnum2 (fst a) <? read_vnum2 (fst b)) eqn:V2; reflexivity.
+  - assert (lb <> la) by lia.
+    destruct (la >? lb) eqn:G1.
+    + assert (Hn : (lb - la <? 0) = true) by lia. rewrite Hn. reflexivity.
+    + destruct (la <? lb) eqn:G2; [|lia].
+      assert (Hn : (lb - la <? 0) = false) by lia. rewrite Hn.
+      assert (Hz : (lb - la =? 0) = false) by lia. rewrite Hz. reflexivity.
+Qed.
+
+Lemma pcmp_antisym x y : pcmp x y = CompOpp (pcmp y x).
+Proof.
+  unfold pcmp. destruct x as [a b], y as [c d]; cbn [fst snd].
+  destruct (a >? c) eqn:E1; destruct (c >? a) eqn:E2; destruct (a <? c) eqn:E3; destruct (c <? a) eqn:E4; try lia; try reflexivity.
+  destruct (b >? d) eqn:F1; destruct (d >? b) eqn:F2; destruct (b <? d) eqn:F3; destruct (d <? b) eqn:F4; try lia; reflexivity.
+Qed.
+Lemma pcmp_lt x y : pcmp x y = Lt <-> (fst x > fst y \/ (fst x = fst y /\ snd x > snd y)).
+Proof.
+  unfold pcmp. destruct x as [a b], y as [c d]; cbn [fst snd].
+  destruct (a >? c) eqn:E1; [split; [intros; lia|reflexivity]|].
+  destruct (a <? c) eqn:E3; [split; [discriminate|intros; lia]|].
+  destruct (b >? d) eqn:F1; [split; [intros; lia|reflexivity]|].
+  destruct (b <? d) eqn:F3; split; try discriminate; intros; lia.
+Qed.
+Lemma pcmp_eq x y : pcmp x y = Eq <-> x = y.
+Proof.
+  unfold pcmp. destruct x as [a b], y as [c d]; cbn [fst snd].
+  destruct (a >? c) eqn:E1; [split; [discriminate|intros H; inversion H; lia]|].
+  destruct (a <? c) eqn:E3; [split; [discriminate|intros H; inversion H; lia]|].
+  destruct (b >? d) eqn:F1; [split; [discriminate|intros H; inversion H; lia]|].
+  destruct (b <? d) eqn:F3; [split; [discriminate|intros H; inversion H; lia]|].
+  split; [intros _; f_equal; lia|reflexivity].
+Qed.
+
+Theorem vnum_cmp_antisym : forall a b : key, cmp_of vnummode a b = CompOpp (cmp_of vnummode b a).
+Proof. intros. rewrite !cmp_of_vnum. apply pcmp_antisym. Qed.
+Theorem vnum_cmp_trans : forall a b c : key, cmp_of vnummode a b = Lt -> cmp_of vnummode b c = Lt -> cmp_of vnummode a c = Lt.
+Proof. intros a b c. rewrite !cmp_of_vnum, !pcmp_lt. lia. Qed.
+Theorem vnum_cmp_lt_eq : forall a b c : key, cmp_of vnummode a b = Lt -> cmp_of vnummode b c = Eq -> cmp_of vnummode a c = Lt.
+Proof. intros a b c. rewrite !cmp_of_vnum. intros H1 H2. apply pcmp_eq in H2. rewrite <- H2. exact H1. Qed.
+
+(* on valid encodings the order is numeric order (descending scan = greater number first) *)
+Theorem vnum_cmp_numeric : forall x y : Z, 0 <= x < 2 ^ 63 -> 0 <= y < 2 ^ 63 ->
+  (cmp_of vnummode (set_vnum64 x, 0) (set_vnum64 y, 0) = Lt <-> x > y).
+Proof.
+  intros x y Hx Hy. rewrite cmp_of_vnum, pcmp_lt. unfold vkey. cbn [fst snd].
+  assert (Hr : forall n, 0 <= n < 2 ^ 63 -> read_vnum2 (set_vnum64 n) = n).
+  { intros n Hn. unfold read_vnum2. destruct (vnum64_roundtrip n [] Hn) as [H _]. rewrite app_nil_r in H. rewrite H. reflexivity. }
+  assert (Hl : forall n, 0 <= n < 2 ^ 63 -> (Z.of_nat (length (set_vnum64 n)) >? IW_VNUMBUFSZ) = false).
+  { intros n Hn. rewrite vnum64_size by exact Hn. unfold IW_VNUMSIZE, IW_VNUMBUFSZ.
+    repeat match goal with |- context [if ?c then _ else _] => destruct c end; reflexivity. }
+  rewrite (Hl x Hx), (Hl y Hy), (Hr x Hx), (Hr y Hy).
+  destruct (Z_le_gt_dec x y) as [Hle|Hgt].
+  - pose proof (vnum64_len_monotone x y ltac:(lia) ltac:(lia)) as Hm. split; [intros; lia|lia].
+  - pose proof (vnum64_len_monotone y x ltac:(lia) ltac:(lia)) as Hm. split; [intros _; lia|intros _].
+    destruct (Z.eq_dec (Z.of_nat (length (set_vnum64 x))) (Z.of_nat (length (set_vnum64 y)))); [right; lia|left; lia].
 Qed.
